@@ -91,35 +91,46 @@ def check_helper(ctx, helper: FuncInfo):
 
     paths = run(ctx, ex, thunk)
     rets = returns(paths)
-    if len(paths) != 1 or not rets:
-        ctx.undecided(rule, helper.qualname, helper.loc(), f"{len(paths)} paths")
+    for q in paths:
+        if q.outcome == "raise":
+            ctx.violation(rule, helper.qualname + "|raises", helper.loc(), "the helper raises on a path with valid symbolic arguments", found=q.exc.exc_name)
+    if not rets:
+        ctx.undecided(rule, helper.qualname, helper.loc(), f"no returning path ({len(paths)} paths)")
         return
-    p = rets[0]
+    for k, p in enumerate(rets):
+        _subset_path(ctx, ex, helper, st, p, "" if len(rets) == 1 else f"#{k}", alpha, betas)
+
+
+def _subset_path(ctx, ex, helper, st, p, sfx, alpha, betas):
+    rule = "C16.a SUBSET-NF"
     loops = main_loop(p, helper.qualname)
     if len(loops) != 1:
         ctx.undecided(rule, helper.qualname, helper.loc(), f"{len(loops)} loops")
         return
     lp = loops[0]
-    ctx.check(lp.info.get("over") is not None and getattr(lp.info["over"], "lid", None) == st["an"].lid if isinstance(lp.info.get("over"), ListV) else False, rule, "loop", helper.loc(lp.node), "one pass over the anomalies handed in", nontrivial=False)
+    ctx.check(lp.info.get("over") is not None and getattr(lp.info["over"], "lid", None) == st["an"].lid if isinstance(lp.info.get("over"), ListV) else False, rule, "loop" + sfx, helper.loc(lp.node), "one pass over the anomalies handed in", nontrivial=False)
     evs = loop_events(p, lp, "scorer_evaluate")
+    if len(evs) == 0 and loop_events(p, lp, "list_append"):
+        ctx.violation(rule, "components" + sfx, loop_events(p, lp, "list_append")[0].loc(), "on this path the affected components are recorded without evaluating the saving on the anomaly's interval: they cannot be the columns with the largest savings in decreasing order", found=repr(loop_events(p, lp, "list_append")[0].data["value"])[:160], expected="order[: argmax(cumsum(s[order] - betas) - alpha) + 1] with order = argsort(-s)")
+        return
     if len(evs) != 1:
-        ctx.undecided(rule, "evaluate", helper.loc(), f"{len(evs)} saving evaluations per anomaly")
+        ctx.undecided(rule, "evaluate" + sfx, helper.loc(), f"{len(evs)} saving evaluations per anomaly")
         return
     e = evs[0]
     a_s, a_e = sym("a_start"), sym("a_end")
     cuts = e.data["cuts"]
     okc = isinstance(cuts, Num) and nf_equal(cuts.nf, app("vec", (a_s, a_e)))
-    ctx.check(okc and e.data["fitted_on"] == "[X]/[1]", rule, "interval", e.loc(), "savings are evaluated on the anomaly's own interval [start, end) of the fitted data", found=repr(cuts), expected="[a_start, a_end]")
+    ctx.check(okc and e.data["fitted_on"] == "[X]/[1]", rule, "interval" + sfx, e.loc(), "savings are evaluated on the anomaly's own interval [start, end) of the fitted data", found=repr(cuts), expected="[a_start, a_end]")
     s_row = app("idx", NF.atom(single_atom(e.data["result"].nf)), (("at", NF.const(0)),))
     want, _ = run_spec(ctx, "subset", "affected_components", lambda sx: [Num(s_row, (Pdim,), "float"), Num(alpha, (), "float"), Num(betas, (Pdim,), "float")])
     apps = loop_events(p, lp, "list_append")
     if len(apps) != 1 or not isinstance(apps[0].data["value"], TupleV) or len(apps[0].data["value"].items) != 3:
-        ctx.violation(rule, "record", helper.loc(), "each anomaly is not recorded as (start, end, components)", found=repr(apps[0].data["value"]) if apps else "no append")
+        ctx.violation(rule, "record" + sfx, helper.loc(), "each anomaly is not recorded as (start, end, components)", found=repr(apps[0].data["value"]) if apps else "no append")
         return
     x, y, comp = apps[0].data["value"].items
-    ctx.check(isinstance(x, Num) and isinstance(y, Num) and nf_equal(x.nf, a_s) and nf_equal(y.nf, a_e), rule, "record|interval", apps[0].loc(), "the interval is passed through unchanged", found=f"({x!r}, {y!r})")
-    ctx.check(isinstance(comp, Num) and comp.nf is not None and nf_equal(comp.nf, want.nf), rule, "components", apps[0].loc(), "components == order[: argmax(cumsum(s[order] - betas) - alpha) + 1] with order = argsort(-s)", found=repr(comp), expected=repr(want.nf))
-    ctx.check(p.value is apps[0].data["lst"], rule, "result", helper.loc(), "the list of (start, end, components) is returned", nontrivial=False)
+    ctx.check(isinstance(x, Num) and isinstance(y, Num) and nf_equal(x.nf, a_s) and nf_equal(y.nf, a_e), rule, "record|interval" + sfx, apps[0].loc(), "the interval is passed through unchanged", found=f"({x!r}, {y!r})")
+    ctx.check(isinstance(comp, Num) and comp.nf is not None and nf_equal(comp.nf, want.nf), rule, "components" + sfx, apps[0].loc(), "components == order[: argmax(cumsum(s[order] - betas) - alpha) + 1] with order = argsort(-s)", found=repr(comp), expected=repr(want.nf))
+    ctx.check(p.value is apps[0].data["lst"], rule, "result" + sfx, helper.loc(), "the list of (start, end, components) is returned", nontrivial=False)
 
 
 def check_roles(ctx, cls, pred, helper):
